@@ -295,3 +295,28 @@ CONTRACTS += [GetMaxCoarsening(), GetSubtractionValue(), PointCoords(1), PointCo
 ASSUMPTIONS += ["get_point_coord_for_each_dim: dims 1 and 2 (outer loops unrolled), use_local_children True, force_balanced_refinement_tree False; the NodeInfo / children "
                 "bookkeeping is sliced away mechanically (statements that only feed children_indices*); A-SUB for the subtraction value; the refinement containers satisfy "
                 "the C06 structure invariant (ascending tiling, shared end-point levels, level 0 at the domain ends)"]
+
+
+def _nested_sets_lemma():
+    """two component levels l < l' in dimension d: if the level test is monotone in the component level (what the relational contract of
+    modify_according_to_levelvec provides for the selected level l - subtraction), every point of the 1-D set of level l is a point of the set of level l'
+    -- stated over the characterisation proved for get_point_coord_for_each_dim (left domain end + right ends of the intervals passing the level test)"""
+    A1, A2 = z3.Const("PA", z3.ArraySort(I, R)), z3.Const("PB", z3.ArraySort(I, R))
+    na, nb, n = z3.Ints("na nb n")
+    en = z3.Const("en", z3.ArraySort(I, R))
+    st0 = z3.Real("st0")
+    incA = z3.Function("includedA", I, z3.BoolSort())      # level test at level l
+    incB = z3.Function("includedB", I, z3.BoolSort())      # level test at level l'
+    p, q, i = z3.Ints("p q i")
+
+    def charact(A, m, inc):
+        return [m >= 1, z3.Select(A, 0) == st0,
+                z3.ForAll([p], z3.Implies(z3.And(p >= 1, p < m), z3.Exists([i], z3.And(i >= 0, i < n, z3.Select(A, p) == z3.Select(en, i), inc(i))))),
+                z3.ForAll([i], z3.Implies(z3.And(i >= 0, i < n, inc(i)), z3.Exists([p], z3.And(p >= 1, p < m, z3.Select(A, p) == z3.Select(en, i)))))]
+    mono = z3.ForAll([i], z3.Implies(incA(i), incB(i)))
+    goal = z3.ForAll([p], z3.Implies(z3.And(p >= 0, p < na), z3.Exists([q], z3.And(q >= 0, q < nb, z3.Select(A2, q) == z3.Select(A1, p)))))
+    return [(charact(A1, na, incA) + charact(A2, nb, incB) + [mono], goal)]
+
+
+LEMMAS += [L.SmtLemma("one-dimensional-point-sets-grow-with-the-level", _nested_sets_lemma,
+                      note="consequence of the characterisation of get_point_coord_for_each_dim and a level test that is monotone in the component level")]
